@@ -63,7 +63,8 @@ def run(cmd, timeout=1800, cwd=ROOT, env=None, input=None):
     e.update({'CARGO_NET_OFFLINE': 'true'})
     if env:
         e.update(env)
-    p = subprocess.run(cmd, cwd=cwd, env=e, capture_output=True, text=True, timeout=timeout, input=input)
+    kw = dict(input=input) if input is not None else dict(stdin=subprocess.DEVNULL)     # never inherit our stdin
+    p = subprocess.run(cmd, cwd=cwd, env=e, capture_output=True, text=True, timeout=timeout, **kw)
     return p.returncode, p.stdout, p.stderr
 
 def ensure_built(what='all'):
